@@ -4,7 +4,7 @@
 From Coq Require Import List Bool Arith NArith ZArith String.
 From Coq.Strings Require Import Byte.
 From Verif.Base Require Import Bytes Outcome Str.
-From Verif.Model Require Import IE KMap Pq Corr Expiry ExpirySpec.
+From Verif.Model Require Import IE KMap Pq Corr Expiry ExpirySpec Heap HeapExpiry.
 Import ListNotations.
 Local Open Scope string_scope.
 
@@ -179,7 +179,25 @@ Definition parse_item (t : toks) : option (item * toks) :=
   | _ => None
   end.
 
-(* F <nf> flows Q <nq> items H ok|bad ;   -> state, heap flag *)
+(* A <n> {<key> <index field>}*n : the slice in array order (compared as text only) *)
+Definition parse_slot (t : toks) : option ((N * Z) * toks) :=
+  match t with
+  | k :: i :: r => match parse_N k, parse_Z i with
+                   | Some k', Some i' => Some ((k', i'), r)
+                   | _, _ => None
+                   end
+  | _ => None
+  end.
+Definition parse_layout (t : toks) : option (list (N * Z) * toks) :=
+  match t with
+  | "A" :: r => match parse_Ntok r with
+                | Some (n, r1) => parse_count parse_slot (N.to_nat n) r1
+                | None => None
+                end
+  | _ => None
+  end.
+
+(* F <nf> flows Q <nq> items H ok|bad A <n> slots ;   -> state, heap flag *)
 Definition parse_snap (T : template) (t : toks) : option (st * bool * toks) :=
   match t with
   | "F" :: r =>
@@ -190,7 +208,11 @@ Definition parse_snap (T : template) (t : toks) : option (st * bool * toks) :=
               match parse_Ntok r2 with
               | Some (nq, r3) =>
                   match parse_count parse_item (N.to_nat nq) r3 with
-                  | Some (q, "H" :: h :: ";" :: r4) => Some (mkSt fl q, String.eqb h "ok", r4)
+                  | Some (q, "H" :: h :: r4) =>
+                      match parse_layout r4 with
+                      | Some (_, ";" :: r5) => Some (mkSt fl q, String.eqb h "ok", r5)
+                      | _ => None
+                      end
                   | _ => None
                   end
               | None => None
@@ -210,7 +232,14 @@ Definition parse_res (t : toks) : option (res * toks) :=
   | "s" :: e :: "cb" :: r =>
       match parse_booltok [e], parse_nlist r with
       | Some (err, _), Some (cbs, "pk" :: r1) =>
-          option_map (fun p => (RScan err cbs (fst p), snd p)) (parse_nlist r1)
+          match parse_nlist r1 with
+          | Some (pk, "ix" :: r2) =>
+              match parse_Ntok r2 with
+              | Some (n, r3) => option_map (fun p => (RScan err cbs pk, snd p)) (parse_count parse_Ztok (N.to_nat n) r3)
+              | None => None
+              end
+          | _ => None
+          end
       | _, _ => None
       end
   | _ => None
@@ -315,8 +344,58 @@ Definition agg_parse (case obs : toks) : option parsed :=
   | None => None
   end.
 
+(* ---- the model side: the exact heap model (Model/HeapExpiry.v) ---- *)
+(* the slice in array order: key and index field of every slot *)
+Definition show_layout (h : heap) : string :=
+  " A " ++ show_nat (List.length h) ++
+  String.concat "" (map (fun x => " " ++ show_N (h_key x) ++ " " ++ show_Z (h_idx x)) h).
+
+Definition show_csnap (T : template) (s : cst) : string :=
+  show_snap T (abs_st s) ++ show_layout (cheap s).
+
+(* The harness cannot see the order of the pops that run no callback (not-ready flows); it
+   reports the popped keys in a canonical order (go/cmd/vharness/c06.go aggPicks): not-ready
+   keys ascending, then the callback keys in call order, stably sorted by (deadline before the
+   scan, not-ready first). The model's true pop sequence is brought into the same form. *)
+Fixpoint insert_N (x : N) (l : list N) : list N :=
+  match l with
+  | [] => [x]
+  | y :: r => if (y <? x)%N then y :: insert_N x r else x :: l
+  end.
+Definition pick_lt (pre : st) (a b : key) : bool :=
+  let da := dl_in pre a in let db := dl_in pre b in
+  (da <? db)%Z || ((da =? db)%Z && negb (ready_in pre a) && ready_in pre b).
+Fixpoint insert_pick (pre : st) (x : key) (l : list key) : list key :=
+  match l with
+  | [] => [x]
+  | y :: r => if pick_lt pre y x then y :: insert_pick pre x r else x :: l
+  end.
+Definition canon_picks (pre : st) (picks : list key) : list key :=
+  let nr := fold_right insert_N [] (filter (fun k => negb (ready_in pre k)) picks) in
+  let rd := filter (ready_in pre) picks in
+  fold_right (insert_pick pre) [] (nr ++ rd).
+
+Definition show_zs (l : list Z) : string :=
+  show_nat (List.length l) ++ String.concat "" (map (fun z => " " ++ show_Z z) l).
+
+Definition show_cent (T : template) (pre : cst) (e : cent) : string :=
+  match ce_res e with
+  | RScan err cbs picks =>
+      "s " ++ show_bool err ++ " cb " ++ show_keys cbs ++ " pk " ++ show_keys (canon_picks (abs_st pre) picks) ++
+      " ix " ++ show_zs (ce_ix e)
+  | r => show_res r
+  end ++ " " ++ show_csnap T (ce_st e) ++ " ;".
+
+Fixpoint show_cents (T : template) (pre : cst) (tr : list cent) : list string :=
+  match tr with
+  | [] => []
+  | e :: tr' => show_cent T pre e :: show_cents T (ce_st e) tr'
+  end.
+
 Definition agg_model_obs (c : parsed) : string :=
-  let '(tr, e) := run Fixed (c_params c) (c_ops c) 0%Z init in show_trace (c_template c) tr e.
+  let '(tr, e) := crun (c_params c) (c_ops c) 0%Z cinit in
+  String.concat " " (show_cents (c_template c) cinit tr ++
+                     match e with EndOk => [] | EndPanic => ["PANIC"] | EndReject => ["REJECT"] end).
 
 (* generated histories satisfy the hypotheses of the theorem when the timeouts are positive *)
 Definition c06_run (case obs : toks) : string :=
